@@ -5,5 +5,6 @@ var verifHarnesses = map[string]func(){
 	"VerifC18PosMapHostile":   VerifC18PosMapHostile,
 	"VerifC06StreamDB":        VerifC06StreamDB,
 	"VerifC20Invalid":         VerifC20Invalid,
+	"VerifC19Proxy":           VerifC19Proxy,
 	"VerifC13ForwardedTx":     VerifC13ForwardedTx,
 }
